@@ -37,22 +37,22 @@ BinSig(e) ==
         aligned == IF Len(e.bits) % 8 = 0 THEN "" ELSE ".unaligned"
     IN IF ~e.hexok \/ e.hex # Hex(e.bits) THEN "hex.to_hex_differs_from_reference" \o aligned
        ELSE IF ~e.unhexok \/ e.unhex # bs THEN "hex.from_hex_of_to_hex" \o aligned
-       ELSE IF ~e.b64dok \/ e.b64d # Base64("std", e.bits) THEN "base64.default_is_not_std"
        ELSE IF \E v \in B64Variants : ~e.b64ok[v] \/ e.b64[v] # Base64(v, e.bits)
             THEN "base64." \o (CHOOSE v \in B64Variants : ~e.b64ok[v] \/ e.b64[v] # Base64(v, e.bits)) \o ".to_base64_differs_from_reference" \o LeftoverTag(Len(bs))
        ELSE IF \E v \in B64Variants : ~e.unb64ok[v] \/ e.unb64[v] # bs
             THEN "base64." \o (CHOOSE v \in B64Variants : ~e.unb64ok[v] \/ e.unb64[v] # bs) \o ".from_base64_of_to_base64" \o LeftoverTag(Len(bs))
+       ELSE IF ~e.b64dok \/ e.b64d # Base64("std", e.bits) THEN "base64.default_is_not_std"
        ELSE HashSig(e)
 
 BytesSig(e) ==
     LET bs == e.inb IN
     IF ~e.hexok \/ ~HexLaw(bs, e.hex) THEN "hex.to_hex_law"
     ELSE IF ~e.unhexok \/ e.unhex # bs THEN "hex.from_hex_of_to_hex"
-    ELSE IF ~e.b64dok \/ e.b64d # e.b64["std"] THEN "base64.default_is_not_std"
     ELSE IF \E v \in B64Variants : ~e.b64ok[v] \/ ~B64Law(v, bs, e.b64[v])
          THEN "base64." \o (CHOOSE v \in B64Variants : ~e.b64ok[v] \/ ~B64Law(v, bs, e.b64[v])) \o ".to_base64_law" \o LeftoverTag(Len(bs))
     ELSE IF \E v \in B64Variants : ~e.unb64ok[v] \/ e.unb64[v] # bs
          THEN "base64." \o (CHOOSE v \in B64Variants : ~e.unb64ok[v] \/ e.unb64[v] # bs) \o ".from_base64_of_to_base64" \o LeftoverTag(Len(bs))
+    ELSE IF ~e.b64dok \/ e.b64d # e.b64["std"] THEN "base64.default_is_not_std"
     ELSE HashSig(e)
 
 UnhexSig(e) ==
